@@ -93,6 +93,40 @@ pub fn grid(seed: u64, tier: Tier) -> Vec<(String, Logical)> {
             out.push((format!("m-{}-{}-p{}", packaging.name(), comp.name(), packs), logical));
         }
     }
+    // content pack ids are chosen by the application and need not be contiguous ({1, 2, 5}), and
+    // the directory pack need not be the first pack the manifest lists
+    for (j, packaging) in [Packaging::Loose, Packaging::Concat].into_iter().enumerate() {
+        let mut rng = Rng::derive(seed, "grid-sparse-ids", k);
+        k += 1;
+        let comp = if j == 0 { Comp::Lz4(3) } else { Comp::None };
+        let mut contents = contents_small(&mut rng, 7, 100, if j == 0 { Hint::Yes } else { Hint::No }, 3);
+        for c in contents.iter_mut() {
+            if c.pack == 3 {
+                c.pack = 5;
+            }
+        }
+        let logical = Logical {
+            comp,
+            packaging,
+            n_packs: 5,
+            contents,
+            schema: SchemaSpec {
+                key_prefix: 2,
+                store: StoreKind::Plain,
+                variants: j == 1,
+                key_pad: 0,
+            },
+            dedup: false,
+            aux_seed: rng.next_u64(),
+            opts: LogicalOpts {
+                absent_ids: 0b01100,
+                dir_not_first: true,
+                shuffle_manifest: j == 1,
+                ..Default::default()
+            },
+        };
+        out.push((format!("m-{}-{}-sparse-ids-dir-not-first", packaging.name(), comp.name()), logical));
+    }
     // packs that can only be found by uuid inside the file at hand (every recorded location is
     // empty), and a container that stores one pack twice
     for (j, (tag, opts)) in [
